@@ -367,16 +367,20 @@ def snapshot(kind, obj):
                  for n in names)
 
 
-def replay_history(kind, menu_by_name, hist):
+def replay_history(kind, menu_by_name, hist, operands=None):
     """rebuild a live object (and its model) from an operation history
-    hist = [init_name, (op, arg), ...]"""
+    hist = [init_name, (op, arg), ...]; when `operands` is a list, every operand object that
+    was added on the way is kept alive in it together with its byte snapshot"""
     name = hist[0]
     args, model = menu_by_name[name]
     obj = build(kind, args)
     for op, arg in hist[1:]:
         if op == "add":
             gargs, gm = menu_by_name[arg]
-            obj.add(build(kind, gargs))
+            g = build(kind, gargs)
+            if operands is not None:
+                operands.append((arg, g, snapshot(kind, g)))
+            obj.add(g)
             model = model.add(gm)
         elif op == "mul":
             obj.mul_scalar(arg)
@@ -395,8 +399,17 @@ def do_transition(kind, by_name, hist, ev, probe_name):
     violations = [(sub, expected, observed, message)]; new_obj is None when the
     operation raised."""
     viol = []
-    obj, model = replay_history(kind, by_name, hist)       # fresh live object
+    operands = []                    # operands of earlier adds, kept alive with their snapshots
+    obj, model = replay_history(kind, by_name, hist, operands)       # fresh live object
     before = canon(kind, obj)
+
+    def earlier_operands_intact(what):
+        for name, g, snap in operands:
+            if snapshot(kind, g) != snap:
+                viol.append(("operand_modified_later", "operand %s unchanged" % name,
+                             canon(kind, g), "%s on the receiver modified the operand of an "
+                             "earlier add (receiver and operand share storage)" % what))
+                return
     try:
         # read-only queries before the event: results computed (and possibly cached) now
         # must not leak into the state after the event
@@ -413,9 +426,18 @@ def do_transition(kind, by_name, hist, ev, probe_name):
             if snapshot(kind, g) != snap:
                 viol.append(("operand_modified", "operand unchanged", canon(kind, g),
                              "add() modified its operand"))
+            earlier_operands_intact("add()")
+            # the sum must not share storage with the operand: scaling the operand afterwards
+            # (a throw-away object from here on) must leave the receiver alone
+            after = canon(kind, obj)
+            g.mul_scalar(3.0)
+            if canon(kind, obj) != after:
+                viol.append(("operand_aliased", after, canon(kind, obj),
+                             "modifying the operand after add() changed the receiver"))
             return obj, model.add(gm), viol
         if ev[0] == "mul":
             obj.mul_scalar(ev[1])
+            earlier_operands_intact("mul_scalar()")
             return obj, model.mul(ev[1]), viol
         # copy: copies are independent of their originals, in both directions
         c1 = obj.copy()
